@@ -279,6 +279,9 @@ func (e *Expr) toks(out *[]tagTok, first bool) {
 		k := e.Kids[0]
 		if isLeaf(k) || (k.Kind == KNeg && isLeaf(k.Kids[0])) {
 			k.toks(out, true)
+		} else if k.Kind == KGroup && k.Style%3 == 1 && (k.Mod == "?" || k.Mod == "*") {
+			// a capture right in front of a bracket group: `@[ x ]`, `@{ x }` (no parentheses in between; C14-r12m1)
+			k.toks(out, true)
 		} else {
 			add("(")
 			k.toks(out, true)
